@@ -165,16 +165,18 @@ def make(case, X, A, y, y_err, spec):
 
 def shape_tag(A, K=None, y_err=None):
     m, p = A.shape
-    if m == p and K is not None:
-        # exactly determined problems for which the data-space form A K A^T + S is far better conditioned than the parameter-space form
-        # I + K W which the library uses whenever m >= p (a nearly singular prior covariance - a long length scale, coinciding positions -
-        # with precise data): a class of its own, see known_findings.json
+    shape = "tall" if m > p else ("wide" if m < p else "square")
+    if K is not None:
+        # problems for which the standard form the library does NOT use is far better conditioned than the one it uses (the data-space
+        # form A K A^T + S for m < p, the parameter-space form I + K W for m >= p - chosen by shape, not by conditioning): a nearly
+        # singular prior covariance or a rank-deficient A with precise data and m >= p.  A class of its own, see known_findings.json
         with np.errstate(all="ignore"):
             c_par = np.linalg.cond(np.eye(p) + K @ (A.T @ np.diag(y_err**-2.0) @ A))
             c_dat = np.linalg.cond(A @ K @ A.T + np.diag(y_err**2))
-        if np.isfinite(c_dat) and c_par > 1e4 * c_dat:
-            return "square:data-form-far-better-conditioned"
-    return "tall" if m > p else ("wide" if m < p else "square")
+        c_lib, c_other = (c_dat, c_par) if m < p else (c_par, c_dat)
+        if np.isfinite(c_other) and c_lib > 100 * c_other:      # (100: the constant of the tolerance - beyond it the form used can exceed it)
+            return shape + ":other-form-far-better-conditioned"
+    return shape
 
 
 def body_posterior(case, ctx):
@@ -360,7 +362,7 @@ def body_history(case, ctx):
     for step, (what, j, how) in enumerate(case["ops"]):
         ref, kappa, resid = refs[j]
         f = 1e-8 + 1000 * kappa * EPS
-        cls_tag = ":square:data-form-far-better-conditioned" if shape_tag(A, ref["K"], y_err).endswith("better-conditioned") else ""
+        cls_tag = (":" + shape_tag(A, ref["K"], y_err)) if shape_tag(A, ref["K"], y_err).endswith("better-conditioned") else ""
         if how == "shared":
             buf[:] = thetas[j]
             arg = buf
